@@ -56,6 +56,9 @@ fn cast_number_operands() -> Vec<V> {
     vec![
         n(65.0), n(233.0), n(128512.0), n(0.0), n(-0.0), n(-1.0), n(0.5), n(55296.0), n(57343.0), n(57344.0), n(1114111.0),
         n(1114112.0), n(1e30), n(f64::NAN), n(f64::INFINITY), n(4294967296.0), n(4294967361.0), n(97.0), n(10.0), n(32.0),
+        // the doubles next to an integer are not integers
+        n(f64::from_bits(65.0f64.to_bits() + 1)), n(f64::from_bits(65.0f64.to_bits() - 1)), n(0.30000000000000004 * 10.0),
+        n(f64::from_bits(1114111.0f64.to_bits() + 1)), n(f64::MIN_POSITIVE), n(-f64::MIN_POSITIVE), n(0.9999999999999999),
     ]
 }
 fn round_operands() -> Vec<V> {
@@ -117,7 +120,7 @@ pub fn case(rng: &mut Rng, ctx: &mut Ctx) -> Program {
             // string -> number, every radix
             let param = match rng.below(12) {
                 0 | 1 | 2 => None,
-                3 => Some(n(*rng.pick(&[1e30, 2.5, f64::NAN, f64::INFINITY, -16.0, 4294967312.0, 16.000001]))),
+                3 => Some(n(*rng.pick(&[1e30, 2.5, f64::NAN, f64::INFINITY, -16.0, 4294967312.0, 16.000001, 16.000000000000004, 15.999999999999998, 36.00000000000001, 1.9999999999999998]))),
                 4 => Some(rng.pick(&[s("16"), V::Null, V::Bool(true), arr(vec![]), V::Mys]).clone()),
                 _ => {
                     let r = rng.range(0, 41) as f64 - 1.0;
